@@ -115,6 +115,14 @@ def run(ctx):
             uniq.append(r)
     rows = uniq
     rows += vc.hrows(["-mode", "reader", "-seed", seed, "-n", "2500" if thorough else "150"])
+    second = [r for r in rows if r["kind"] == "secondpass"]
+    rows = [r for r in rows if r["kind"] != "secondpass"]
+    for r in second:
+        if r["different"] > 0:
+            ctx.violation({"kind": "property-violated-by-implementation", "class": "parse-depends-on-earlier-calls",
+                           "explain": "the same input parsed again later in the same process gave a different outcome",
+                           "failing_input": {"count": r["different"], "inputs": [vc.show(h) for h in r.get("examples") or []]}})
+    ctx.cov["second_pass"] = [{k: v for k, v in r.items() if k != "examples"} for r in second]
     big = [r for r in rows if r.get("nomodel")]      # reader texts > 4 KiB / > 64 KiB: checked on the observations only
     rows = [r for r in rows if not r.get("nomodel")]
     bad, dom, ill = vc.model_eval(ctx, "cases_c15", rows, shard=2500 if thorough else 600)
